@@ -111,8 +111,18 @@ def proof_dag(rng, dag, p):
 
 def py_check_proof(c):
     from pytoniq_core.proof.check_proof import check_proof
+    from pytoniq_core.boc.cell import Cell
     dag, h = c
-    check_proof(cells.build_py(dag)[-1], bytes.fromhex(h))
+    root = cells.build_py(dag)[-1]
+    check_proof(root, bytes.fromhex(h))
+    # the same proof reached by other routes (a copy, a BoC round trip, slice -> cell) is the same proof: it must be
+    # accepted as well (a rejected proof raised above already)
+    for name, other in (("copy", lambda: root.copy()), ("boc", lambda: Cell.one_from_boc(root.to_boc())),
+                        ("slice", lambda: root.begin_parse().to_cell())):
+        try:
+            check_proof(other(), bytes.fromhex(h))
+        except Exception as e:
+            return f"ok-but-{name}-rejected {type(e).__name__}"
     return "ok"
 
 
